@@ -732,7 +732,29 @@ func (o *Oracles) UserRestored(burned uint64, st FSMState) {
 // ---------------------------------------------------------------------------
 // messages (C01/R2, R3)
 
+// reportedTermDurable (C06/R3): a term a server puts on the wire - in a request
+// it sends as leader or candidate, or in any response - must already be in its
+// stable store: a crash right after would otherwise bring it back reporting a
+// lower term. (RequestPreVote and its response carry the proposed term, not the server's own.)
+func (o *Oracles) reportedTermDurable(id string, gen int, term uint64, what string) {
+	s := o.w.Servers[id]
+	if s == nil || s.Inst == nil || s.Inst.Gen != gen || s.Inst.dead || term == 0 {
+		return
+	}
+	if d := s.Inst.disk.Term(); d < term {
+		o.w.violate("C06", "R3", "C06/R3/reported-term-not-durable", "%s put term %d on the wire (%s) while its stable store holds CurrentTerm %d: a crash now brings it back reporting a lower term", id, term, what, d)
+	}
+}
+
 func (o *Oracles) onRequest(m *Msg, target *Instance) {
+	switch q := m.Req.(type) {
+	case *raft.AppendEntriesRequest:
+		o.reportedTermDurable(m.From, m.FromGen, q.Term, "AppendEntries request")
+	case *raft.RequestVoteRequest:
+		o.reportedTermDurable(m.From, m.FromGen, q.Term, "RequestVote request")
+	case *raft.InstallSnapshotRequest:
+		o.reportedTermDurable(m.From, m.FromGen, q.Term, "InstallSnapshot request")
+	}
 	switch m.Kind {
 	case KAppend, KHeartbeat, KSnapshot:
 		if prev, ok := o.senderOf[m.Term]; ok && prev != m.From {
@@ -787,6 +809,16 @@ func (o *Oracles) onResponseProduced(m *Msg, target *Instance) {
 	m.ProducedSeq = o.w.Seq
 	if m.Kind == KSnapshot && target != nil {
 		target.installing = false
+	}
+	if target != nil && m.Err == nil {
+		switch r := m.Resp.(type) {
+		case *raft.AppendEntriesResponse:
+			o.reportedTermDurable(target.ID(), target.Gen, r.Term, "AppendEntries response")
+		case *raft.RequestVoteResponse:
+			o.reportedTermDurable(target.ID(), target.Gen, r.Term, "RequestVote response")
+		case *raft.InstallSnapshotResponse:
+			o.reportedTermDurable(target.ID(), target.Gen, r.Term, "InstallSnapshot response")
+		}
 	}
 	switch r := m.Resp.(type) {
 	case *raft.RequestVoteResponse:
